@@ -1347,3 +1347,19 @@ def opt_ok_or_else(ex, args):
 def array_into_iter(ex, args):
     v = args[0]
     return SeqIter(list(v.items)) if isinstance(v, VecV) else SeqIter(seq_of(ex, v))
+
+
+@model(r'(?:core::str::|std::str::)?<impl str>::split::<char>')
+def str_split_char(ex, args):
+    """str::split(char): segments between separators (symbolic chars fork on `c == sep`)"""
+    s = as_str(args[0]); sep = args[1]
+    segs = [[]]
+    for c in s.chars:
+        r = simp(eq(c, sep))
+        if ex.decide(r) if is_sym(r) else r: segs.append([])
+        else: segs[-1].append(c)
+    return SeqIter([StrV(x) for x in segs])
+
+
+@model(r"<(?:std::str::)?Split<'_, char> as Iterator>::(\w+)(?:::<.*>)?")
+def str_split_iter(ex, args, m): return iter_adaptor(ex, m.group(1), deref(args[0]), args[1:], m)
